@@ -420,6 +420,26 @@ impl ReaderState {
     }
 }
 
+/// Build the error a failing call returns. Real devices report failures with an OS error
+/// code; half of the injected errors (chosen by the event's sequence number) therefore carry
+/// one (`io::Error::from_raw_os_error`, which maps to the same `ErrorKind`), the other half
+/// are bare kinds. Neither constructor allocates.
+fn make_err(kind: ErrorKind, seq: u64) -> io::Error {
+    let raw = match kind {
+        ErrorKind::WouldBlock => Some(11),       // EAGAIN
+        ErrorKind::Interrupted => Some(4),       // EINTR
+        ErrorKind::TimedOut => Some(110),        // ETIMEDOUT
+        ErrorKind::PermissionDenied => Some(13), // EACCES
+        ErrorKind::BrokenPipe => Some(32),       // EPIPE
+        ErrorKind::Other => Some(5),             // EIO (kind Uncategorized on current std)
+        _ => None,
+    };
+    match raw {
+        Some(code) if seq % 2 == 1 && kind != ErrorKind::Other => io::Error::from_raw_os_error(code),
+        _ => io::Error::from(kind),
+    }
+}
+
 fn err_code(kind: ErrorKind) -> i64 {
     let idx = KINDS.iter().position(|k| *k == kind).unwrap_or(0) as i64;
     -(1 + idx)
@@ -495,7 +515,7 @@ impl Read for SimReader {
             ev.dec = DEC_PENDING_FAIL;
             ev.result = err_code(kind);
             s.log(ev);
-            return Err(io::Error::from(kind));
+            return Err(make_err(kind, seq));
         }
         // 2. a sticky fault in force
         if let Some(f) = s.sticky {
@@ -516,7 +536,7 @@ impl Read for SimReader {
                     s.failure_ever = true;
                     ev.result = err_code(kind);
                     s.log(ev);
-                    return Err(io::Error::from(kind));
+                    return Err(make_err(kind, seq));
                 }
                 Fault::Short { .. } => {}
             }
@@ -536,7 +556,7 @@ impl Read for SimReader {
                     ev.dec = DEC_FAIL;
                     ev.result = err_code(kind);
                     s.log(ev);
-                    return Err(io::Error::from(kind));
+                    return Err(make_err(kind, seq));
                 }
                 Fault::EofEarly { sticky } => {
                     if sticky {
@@ -597,7 +617,7 @@ impl Read for SimReader {
                 ev.dec = DEC_EINTR;
                 ev.result = err_code(ErrorKind::Interrupted);
                 s.log(ev);
-                Err(io::Error::from(ErrorKind::Interrupted))
+                Err(make_err(ErrorKind::Interrupted, seq))
             }
             _ => {
                 let mut n = want.min(avail);
@@ -662,7 +682,7 @@ impl Seek for SimReader {
                 ev.dec = DEC_STICKY;
                 ev.result = err_code(kind);
                 s.log(ev);
-                return Err(io::Error::from(kind));
+                return Err(make_err(kind, seq));
             }
         }
         if let Some(Fault::Fail { kind, sticky }) = fault {
@@ -675,7 +695,7 @@ impl Seek for SimReader {
             ev.dec = DEC_FAIL;
             ev.result = err_code(kind);
             s.log(ev);
-            return Err(io::Error::from(kind));
+            return Err(make_err(kind, seq));
         }
         let target: Option<u64> = match to {
             SeekFrom::Start(o) => Some(o),
